@@ -29,9 +29,24 @@ pub fn hist_strategy(
     max_ops: usize,
     max_prepop: usize,
 ) -> impl Strategy<Value = HistCase> {
-    (pool_strategy(), 2u8..=4, cfg, prepop_strategy(max_prepop), proptest::collection::vec(rawop_strategy(), 0..=max_ops))
-        .prop_map(|(pool, depth, cfg, prepop, ops)| HistCase { pool, depth, cfg, prepop, ops })
+    (pool_strategy(), 2u8..=4, cfg, prepop_strategy(max_prepop), proptest::collection::vec(rawop_strategy(), 0..=max_ops), 0usize..EMB_POOLS.len())
+        .prop_map(|(pool, depth, cfg, prepop, ops, sel)| {
+            // stacks with an embedded layer draw their names from the fixture, so that the
+            // history meets the read-only layer's files and directories
+            let pool = if cfg.contains_emb() { EMB_POOLS[sel].iter().map(|s| s.to_string()).collect() } else { pool };
+            HistCase { pool, depth, cfg, prepop, ops }
+        })
 }
+
+/// name pools made of component names of /verif/fixture_embed (plus a few names it lacks)
+pub const EMB_POOLS: [[&str; 5]; 6] = [
+    ["a", "ab", "c.txt", "cd", "e.bin"],
+    ["dir", "sub", "deep", "only", "empty"],
+    ["x", "x.tar", "x.tar.gz", "a.txt", "abc"],
+    ["ü", "é", "日本.txt", "a", "new"],
+    ["big", "block8k.bin", "trail...", "..lead", "n"],
+    ["sp ace", "f g.txt", "v1..v2", "notes..txt", "sub.d"],
+];
 
 // ------------------------------------------------------------------------------------------
 // JSON (replay files)
@@ -346,7 +361,7 @@ pub fn run_hist(
 ) -> Result<HistResult, Failure> {
     let (pool, depth) = effective(case);
     let nlayers = case.cfg.overlay_layers().max(1);
-    let prepop = make_prepop(&case.prepop, &pool, depth, nlayers);
+    let prepop = emb_prepop(&case.cfg, make_prepop(&case.prepop, &pool, depth, nlayers));
     let plan = Plan {
         cfg: &case.cfg,
         pool,
